@@ -10,7 +10,7 @@
     formatter [F] writes for plan [p]; [planned o d p] = the planned commands as [Scanner.emit]
     reports them (the default delimiter stays in the text). *)
 From Coq Require Import List NArith ZArith Bool String.
-From Atlas Require Import Base.Bytes Lex.LexModel Lex.ClosedModel Lex.FmtModel Lex.QuoteModel Lex.FmtRefuted.
+From Atlas Require Import Base.Bytes Lex.LexModel Lex.ClosedModel Lex.FmtModel Lex.QuoteModel Lex.QuoteProofs Lex.ClosedProofs Lex.FmtProofs Lex.FmtRefuted gen.Gen_ScanOpts.
 Import ListNotations.
 
 (** Full statement 3 (every identifier the builder quotes is a closed token) is FALSE of the
@@ -89,3 +89,201 @@ Proof.
   split; eexists; eassumption.
 Qed.
 Print Assumptions C07_quote_refuted.
+
+(** Statement 2 — the literal quoting functions produce closed tokens for the matching scanner, for
+    EVERY input string ([quoted_token esc tok]: walking the token from its first byte with the
+    scanner's quote skipping ends outside every quote exactly at the end of the token, whatever
+    follows; [esc] = the scanner's BackslashEscapes):
+    - PostgreSQL quote and sqlx.SingleQuote (escaping branch) for the scanners without backslash
+      escapes (generic, PostgreSQL, SQLite);
+    - MySQL quote = strconv.Quote for the MySQL scanner, for every set [np] of non-printable runes.
+    The pass-through branch (input already quoted according to IsQuoted) and formatValues are
+    refuted above (C07_quote_refuted). *)
+Theorem C07_quote_closed :
+  (forall s, is_quoted s [39%N] = false -> lit_closed opts_postgres (pg_quote s) = true
+                                          /\ lit_closed opts_generic (pg_quote s) = true
+                                          /\ lit_closed opts_sqlite (pg_quote s) = true)
+  /\ (forall s t, is_quoted s [39%N] = false -> single_quote s = Some t ->
+                  lit_closed opts_sqlite t = true /\ lit_closed opts_generic t = true)
+  /\ (forall np s, is_quoted s [34%N; 39%N] = false -> lit_closed opts_mysql (mysql_quote np s) = true)
+  /\ (forall np s, lit_closed opts_mysql (go_quote np s) = true).
+Proof.
+  split; [|split; [|split]].
+  - intros s H. pose proof (pg_quote_closed s H) as P. repeat split; exact P.
+  - intros s t H1 H2. pose proof (single_quote_closed s t H1 H2) as P. split; exact P.
+  - intros np s H. exact (mysql_quote_closed np s H).
+  - intros np s. exact (go_quote_closed np s).
+Qed.
+Print Assumptions C07_quote_closed.
+Example C07_quote_closed_nonvacuous :
+  pg_quote (bs "it's; -- x"%string) = bs "'it''s; -- x'"%string
+  /\ mysql_quote [] (bs "a""b\c"%string) = bs """a\""b\\c"""%string.
+Proof. vm_compute. split; reflexivity. Qed.
+
+(** the single-quote wrapping is closed under backslash escapes only without a backslash in the
+    input ('ab\' is not): PostgreSQL-style literals are for scanners without backslash escapes. *)
+Theorem C07_quote_closed_backslash : forall s,
+  ~ In 92%N s -> quoted_token true ([39%N] ++ double_sq s ++ [39%N]) = true.
+Proof. exact sq_wrap_closed_noback. Qed.
+Print Assumptions C07_quote_closed_backslash.
+
+(** Statement 3 (partial: the exact characterisation needs a side condition) — Builder.Ident:
+    a name without the closing quote byte is a closed token; in general (names with no OTHER quote
+    byte) the token is closed iff every maximal run of the quote byte in the name has even length
+    (the name happens to be correctly doubled).  Missing for the unconditional iff: names mixing
+    several quote characters, where the scanner re-synchronises by accident. *)
+Theorem C07_ident_closed_partial : forall q s, is_quote q = true -> s <> [] ->
+  (~ In q s -> quoted_token false (ident q q s) = true)
+  /\ ((forall b, In b s -> is_quote b = true -> b = q) ->
+      (quoted_token false (ident q q s) = true <-> even_runs q s = true)).
+Proof.
+  intros q s Hq Hs. split.
+  - exact (ident_closed_notin q s Hq Hs).
+  - exact (ident_closed_iff q s Hq Hs).
+Qed.
+Print Assumptions C07_ident_closed_partial.
+Example C07_ident_closed_partial_nonvacuous :
+  quoted_token false (ident 34 34 (bs "users"%string)) = true
+  /\ quoted_token false (ident 34 34 (bs "a"";b"%string)) = false.
+Proof. vm_compute. split; reflexivity. Qed.
+
+(** Statement 1 — C07_roundtrip.  Full statement: for each formatter F of the six, each scanner
+    option set o, each delimiter d and EVERY plan whose commands are [scan_closed o d] and whose
+    comments are [comment_ok]: the matching reader returns exactly the planned commands.
+    It is FALSE as it stands for three readers (refuted above: Goose/DBMate line filters, Liquibase
+    rollback lines); what holds is proved below, per formatter, for ALL plans:
+
+    DefaultFormatter (atlas format, read by migrate.FileStmts with the dialect's scanner): every
+    option set without the GO batch command — in particular the four sets the drivers use, dumped
+    into gen/Gen_ScanOpts.v on every run —, the default delimiter or any [delim_ok] custom delimiter
+    that does not start with '-', any list of extra directive lines. *)
+
+(** unfolding equations over VARIABLES (each checked by [reflexivity] on a small term), used to
+    connect the per-format lemmas of Lex/FmtProofs.v with [roundtrip] / [planned] by rewriting,
+    without conversions between large terms *)
+Lemma read_atlas o c : read FAtlas o c = of_scan (scan o c). Proof. reflexivity. Qed.
+Lemma read_liquibase o c : read FLiquibase o c = of_scan (scan o c). Proof. reflexivity. Qed.
+Lemma read_golang o c : read FGolangMigrate o c = of_scan (Stmts c). Proof. reflexivity. Qed.
+Lemma read_flyway o c : read FFlyway o c = of_scan (Stmts c). Proof. reflexivity. Qed.
+Lemma up_atlas now p : up_content FAtlas now p = atlas_content p. Proof. reflexivity. Qed.
+Lemma up_golang now p : up_content FGolangMigrate now p = tool_up p. Proof. reflexivity. Qed.
+Lemma up_flyway now p : up_content FFlyway now p = tool_up p. Proof. reflexivity. Qed.
+Lemma up_liquibase now p : up_content FLiquibase now p = liquibase_content now p. Proof. reflexivity. Qed.
+Lemma up_dbmate now p : up_content FDBMate now p = dbmate_content p. Proof. reflexivity. Qed.
+Lemma texts_of_eq r : texts_of r = texts (of_scan r). Proof. reflexivity. Qed.
+Lemma roundtrip_eq F o now p : roundtrip F o now p = texts (read F o (up_content F now p)). Proof. reflexivity. Qed.
+Lemma planned_eq o d p : planned o d p = Some (map (fun c => stmt_text o d (c_cmd c)) (p_changes p)).
+Proof. reflexivity. Qed.
+Lemma semi_eq : semi = delimiter. Proof. reflexivity. Qed.
+
+Theorem C07_driver_opts_no_go : forallb (fun o => negb (GoCommand o)) gen_scan_opts = true.
+Proof. vm_compute. reflexivity. Qed.
+Print Assumptions C07_driver_opts_no_go.
+
+Theorem C07_roundtrip_atlas : forall o now p,
+  GoCommand o = false ->
+  (p_delim p = [] \/ (delim_ok (p_delim p) = true /\ hd 0%N (p_delim p) <> 45%N)) ->
+  Forall (fun x => directive_ok x = true) (p_directives p) ->
+  Forall (fun c => scan_closed o (or_delim (p_delim p)) (c_cmd c) = true /\ comment_ok (c_comment c) = true) (p_changes p) ->
+  roundtrip FAtlas o now p = planned o (or_delim (p_delim p)) p.
+Proof.
+  intros o now p Hgo Hd Hdir Hall. rewrite roundtrip_eq, up_atlas, read_atlas, planned_eq, <- texts_of_eq.
+  exact (atlas_roundtrip o p Hgo Hd Hdir Hall).
+Qed.
+Print Assumptions C07_roundtrip_atlas.
+
+(** the same for the option sets of the tree under test *)
+Theorem C07_roundtrip_atlas_drivers : forall o now p,
+  In o gen_scan_opts ->
+  (p_delim p = [] \/ (delim_ok (p_delim p) = true /\ hd 0%N (p_delim p) <> 45%N)) ->
+  Forall (fun x => directive_ok x = true) (p_directives p) ->
+  Forall (fun c => scan_closed o (or_delim (p_delim p)) (c_cmd c) = true /\ comment_ok (c_comment c) = true) (p_changes p) ->
+  roundtrip FAtlas o now p = planned o (or_delim (p_delim p)) p.
+Proof.
+  intros o now p Ho. apply C07_roundtrip_atlas.
+  pose proof (proj1 (forallb_forall _ _) C07_driver_opts_no_go o Ho) as H. apply negb_true_iff in H. exact H.
+Qed.
+Print Assumptions C07_roundtrip_atlas_drivers.
+
+Definition ex_plan (d : bytes) : plan :=
+  mkPlan (bs "20240101000000"%string) (bs "n"%string) d [bs "-- atlas:txmode none"%string]
+    [mkChange (bs "CREATE TABLE `t;` (`c` int COMMENT ""x\""; -- y"")"%string) (bs "create ""t;"" table"%string) [bs "DROP TABLE `t;`"%string];
+     mkChange (bs "ALTER TABLE `t;` ADD COLUMN `d` varchar(9) DEFAULT 'a''b;'"%string) [] []].
+Example C07_roundtrip_atlas_nonvacuous :
+  forallb (fun c => scan_closed opts_mysql semi (c_cmd c) && comment_ok (c_comment c)) (p_changes (ex_plan [])) = true
+  /\ delim_ok [10;10]%N = true
+  /\ forallb (fun c => scan_closed opts_mysql [10;10]%N (c_cmd c) && comment_ok (c_comment c)) (p_changes (ex_plan [10;10]%N)) = true
+  /\ forallb directive_ok (p_directives (ex_plan [])) = true
+  /\ List.length (p_changes (ex_plan [])) = 2%nat.
+Proof. repeat split; vm_compute; reflexivity. Qed.
+
+(** golang-migrate and Flyway up files (their File types are not *LocalFile: migrate.FileStmts falls
+    back to the generic migrate.Stmts) and Liquibase files (LocalFile: the dialect's scanner).
+    Liquibase needs what C07_liquibase_rollback_refuted shows to be necessary: a non-empty plan and
+    newline-free reverse statements. *)
+Theorem C07_roundtrip_tools_except : forall o now p,
+  (Forall (fun c => scan_closed opts_generic semi (c_cmd c) = true /\ comment_ok2 (c_comment c) = true) (p_changes p) ->
+     roundtrip FGolangMigrate o now p = planned opts_generic semi p
+     /\ roundtrip FFlyway o now p = planned opts_generic semi p)
+  /\ (GoCommand o = false -> comment_ok now = true -> p_changes p <> [] ->
+      Forall (fun c => scan_closed o semi (c_cmd c) = true /\ comment_ok (c_comment c) = true /\
+                       Forall (fun r => comment_ok r = true) (c_reverse c)) (p_changes p) ->
+      roundtrip FLiquibase o now p = planned o semi p).
+Proof.
+  intros o now p. split.
+  - rewrite semi_eq. intros Hall.
+    rewrite !roundtrip_eq, up_golang, up_flyway, read_golang, read_flyway, planned_eq, <- texts_of_eq.
+    split; exact (tool_up_roundtrip p Hall).
+  - rewrite semi_eq. intros Hgo Hnow Hne Hall.
+    rewrite roundtrip_eq, up_liquibase, read_liquibase, planned_eq, <- texts_of_eq.
+    exact (liquibase_roundtrip o now p Hgo Hnow Hne Hall).
+Qed.
+Print Assumptions C07_roundtrip_tools_except.
+Definition ex_tool_plan : plan :=
+  mkPlan [] [] [] [] [mkChange (bs "CREATE TABLE ""t;"" (c text DEFAULT 'a''b;')"%string) (bs "create t"%string) [bs "DROP TABLE t"%string]].
+Example C07_roundtrip_tools_nonvacuous :
+  forallb (fun c => scan_closed opts_generic semi (c_cmd c) && comment_ok2 (c_comment c)
+                    && forallb comment_ok (c_reverse c)) (p_changes ex_tool_plan) = true
+  /\ roundtrip FLiquibase opts_postgres (bs "20240101000000"%string) ex_tool_plan
+      = Some [bs "CREATE TABLE ""t;"" (c text DEFAULT 'a''b;');"%string].
+Proof. split; vm_compute; reflexivity. Qed.
+
+(** Statement 4a — C07_goose_dbmate_reader (partial).  Full statement: the Goose and DBMate readers
+    (line filters in front of the generic scanner) return the planned commands for every plan of
+    [scan_closed opts_generic] commands.  It is false (C07_goose_dbmate_line_filter_refuted).
+    Proved: the DBMate reader, for all plans whose up section passes the decidable line condition
+    [dbmate_ok] (no line contains "down" or "-- migrate:up" or starts with "-- migrate:", no
+    carriage return).  Missing: the Goose reader (its statements are delimited by an inserted
+    "-- ATLAS_DELIM_END" line after every line ending in ';'; covered by the tie and the oracle
+    only: 3 197 plans per quick run). *)
+Theorem C07_goose_dbmate_reader_partial : forall o now p,
+  Forall (fun c => scan_closed opts_generic semi (c_cmd c) = true /\ comment_ok2 (c_comment c) = true) (p_changes p) ->
+  dbmate_ok (tool_up p) = true ->
+  roundtrip FDBMate o now p = planned opts_generic semi p.
+Proof.
+  rewrite semi_eq. intros o now p Hall Hok. rewrite roundtrip_eq, up_dbmate, planned_eq.
+  exact (dbmate_roundtrip o p Hall Hok).
+Qed.
+Print Assumptions C07_goose_dbmate_reader_partial.
+Example C07_goose_dbmate_reader_nonvacuous :
+  dbmate_ok (tool_up (mkPlan [] [] [] [] [mkChange (bs "CREATE TABLE ""t;"" (c text DEFAULT 'a''b;')"%string) (bs "create t"%string) []])) = true
+  /\ dbmate_ok (tool_up w_dbmate_plan) = false.
+Proof. vm_compute. split; reflexivity. Qed.
+
+(** the single-statement core, against the scanner model of C08: a closed command followed by the
+    delimiter and a newline is read as exactly one statement with that text, at that offset,
+    whatever precedes it (newlines, comment lines) and whatever follows it in the file. *)
+Theorem C07_closed_statement : forall o d g cmd tail s f,
+  GoCommand o = false -> delim_ok d = true -> gap_delim_ok d ->
+  scan_closed o d cmd = true -> Gap d g ->
+  input s = g ++ cmd ++ d ++ [10%N] ++ tail -> pos s = 0%Z -> delim s = d -> endterm s = false ->
+  (List.length g + List.length cmd + List.length d + 4 <= f)%nat ->
+  exists s' cs,
+    stmt o f s = Ok (s', Some (mkStmt (total s + zlen g)%Z (stmt_text o d cmd) cs)) /\
+    input s' = 10%N :: tail /\ pos s' = 0%Z /\ delim s' = d.
+Proof.
+  intros o d g cmd tail s f H1 H2 H3 H4 H5 H6 H7 H8 H9 H10.
+  destruct (stmt_gap_closed o d g cmd tail s f H1 H2 H3 H4 H5 H6 H7 H8 H9 H10) as (s' & cs & A & B & C & D & _).
+  exists s', cs. repeat split; assumption.
+Qed.
+Print Assumptions C07_closed_statement.
